@@ -143,7 +143,7 @@ var startNames = []string{"s_ok", "s_trap", "s_self0", "s_self3", "s_foreign0", 
 // context-done closes (kCallCtx, Op.Var): how the context of a call of export "wait" ends.
 const (
 	ctxCancelInFlight  = 0 // cancelled while the guest is inside the host function
-	ctxTimeoutInFlight = 1 // 1ms deadline passes while the guest is inside the host function
+	ctxTimeoutInFlight = 1 // the deadline passes while the guest is inside the host function
 	ctxCancelledBefore = 2 // already cancelled when Call is invoked
 	ctxExpiredBefore   = 3 // deadline already passed when Call is invoked
 )
@@ -180,6 +180,7 @@ type Op struct {
 	Var      int    `json:"var,omitempty"`      // compile: binary variant (>0)
 	Start    string `json:"start,omitempty"`    // inst: name of the start function (startSpec); "" = none
 	DefStart bool   `json:"defstart,omitempty"` // inst+frombin+start: exported as "_start", ModuleConfig start functions left at the default
+	Hold     bool   `json:"hold,omitempty"`     // callctx in flight: the guest stays parked in the host function until a later "release" of this operation
 	NoNotif  bool   `json:"nonotif,omitempty"`  // inst/hostinst: no CloseNotifier in the context
 	Y        int    `json:"y,omitempty"`        // concurrent: yield spec before the operation
 	Sync     int    `json:"sync,omitempty"`     // concurrent: rendezvous number (0 none)
@@ -199,6 +200,7 @@ const (
 	kRtClose     = "rtclose"
 	kRtCloseC    = "rtclosec"
 	kCallCtx     = "callctx" // call export "wait" with a context that ends (Var: how); needs WithCloseOnContextDone
+	kRelease     = "release" // let the guest parked by callctx operation H return and collect the result of its call
 )
 
 func (o Op) String() string {
@@ -236,8 +238,14 @@ func (o Op) String() string {
 	case kCall:
 		return fmt.Sprintf("slot%d.ExportedFunction(f).Call()", o.H)
 	case kCallCtx:
-		how := []string{"cancelled in flight", "1ms timeout in flight", "already cancelled", "already expired"}[o.Var&3]
-		return fmt.Sprintf("slot%d.ExportedFunction(wait).Call(ctx %s)", o.H, how)
+		how := []string{"cancelled in flight", "deadline exceeded in flight", "already cancelled", "already expired"}[o.Var&3]
+		hold := ""
+		if o.Hold && o.Var&3 < 2 {
+			hold = ", guest stays parked in the host function"
+		}
+		return fmt.Sprintf("slot%d.ExportedFunction(wait).Call(ctx %s%s)", o.H, how, hold)
+	case kRelease:
+		return fmt.Sprintf("release the guest parked by #%d and collect its call", o.H)
 	case kCompile:
 		return fmt.Sprintf("Runtime.CompileModule(variant %d)", o.Var)
 	case kHostInst:
@@ -278,14 +286,15 @@ func (o Op) closeCode() uint32 {
 
 // Res is the observable result of one operation.
 type Res struct {
-	Skip   bool   `json:"skip,omitempty"`   // handle slot empty (or call on a host module): nothing was executed
-	Err    string `json:"err,omitempty"`    // first line of the returned error
-	Panic  string `json:"panic,omitempty"`  // a panic escaped the API call
-	Inst   int    `json:"inst"`             // inst/hostinst ok: own id; lookup: id of the returned module, -1 = nil; -2 = unknown module
-	Closed bool   `json:"closed,omitempty"` // isclosed
-	Kind   string `json:"kind,omitempty"`   // call: wz outcome kind
-	Exit   uint32 `json:"exit,omitempty"`   // call: exit code of the sys.ExitError
-	Val    uint64 `json:"val,omitempty"`    // call: result
+	Skip   bool   `json:"skip,omitempty"`             // handle slot empty (or call on a host module): nothing was executed
+	Err    string `json:"err,omitempty"`              // first line of the returned error
+	Panic  string `json:"panic,omitempty"`            // a panic escaped the API call
+	Inst   int    `json:"inst"`                       // inst/hostinst ok: own id; lookup: id of the returned module, -1 = nil; -2 = unknown module
+	Closed bool   `json:"closed,omitempty"`           // isclosed; callctx: IsClosed() observed true
+	Reg    bool   `json:"still_registered,omitempty"` // callctx: Runtime.Module(name) still returned the instance after IsClosed() was observed true
+	Kind   string `json:"kind,omitempty"`             // call: wz outcome kind
+	Exit   uint32 `json:"exit,omitempty"`             // call: exit code of the sys.ExitError
+	Val    uint64 `json:"val,omitempty"`              // call: result
 }
 
 func (r Res) String() string {
@@ -297,7 +306,11 @@ func (r Res) String() string {
 	case r.Err != "":
 		return "error: " + r.Err
 	}
-	return fmt.Sprintf("ok{inst:%d closed:%v kind:%s exit:%d val:%d}", r.Inst, r.Closed, r.Kind, r.Exit, r.Val)
+	reg := ""
+	if r.Reg {
+		reg = " STILL-REGISTERED"
+	}
+	return fmt.Sprintf("ok{inst:%d closed:%v kind:%s exit:%d val:%d%s}", r.Inst, r.Closed, r.Kind, r.Exit, r.Val, reg)
 }
 
 // ---------------------------------------------------------------------------------------
@@ -373,17 +386,72 @@ type env struct {
 	engine   string
 	rt       wazero.Runtime
 	compiled [2]wazero.CompiledModule
-	cod      bool // RuntimeConfig.WithCloseOnContextDone(true)
+	cod      bool                // RuntimeConfig.WithCloseOnContextDone(true)
+	parked   map[int]*parkedCall // by op index of the callctx operation (guarded by mu)
 	mu       sync.Mutex
 	attempts map[int]*attempt
 	slots    []atomic.Value // modBox per op index
 }
 
-type cancelKey struct{}
+type parkKey struct{}
+
+// ctlCtx is a context whose end the harness triggers (cancellation or deadline) once the guest
+// is parked, so that "the context ended while the call was in flight" does not depend on timing.
+type ctlCtx struct {
+	context.Context
+	done chan struct{}
+	mu   sync.Mutex
+	err  error
+}
+
+func newCtlCtx(parent context.Context) *ctlCtx {
+	return &ctlCtx{Context: parent, done: make(chan struct{})}
+}
+func (c *ctlCtx) Done() <-chan struct{} { return c.done }
+func (c *ctlCtx) Err() error {
+	c.mu.Lock()
+	defer c.mu.Unlock()
+	return c.err
+}
+func (c *ctlCtx) end(err error) {
+	c.mu.Lock()
+	defer c.mu.Unlock()
+	if c.err == nil {
+		c.err = err
+		close(c.done)
+	}
+}
+
+// pollPause: yield for the first polls, then sleep briefly (no busy spinning under load).
+func pollPause(i int) {
+	if i < 50 {
+		runtime.Gosched()
+	} else {
+		time.Sleep(20 * time.Microsecond)
+	}
+}
+
+// park is handed to the host function env.block through the call context.
+type park struct {
+	entered chan struct{}
+	release chan struct{}
+}
+
+// parkedCall is a call of export "wait" whose guest is still inside env.block.
+type parkedCall struct {
+	p    *park
+	done chan wz.Outcome
+}
+
+const (
+	closedWait   = 10 * time.Second       // bound for IsClosed()==true after the context ended (the runtime's watcher goroutine needs scheduling)
+	unlinkRetry  = 500 * time.Millisecond // the watcher sets the closed word, then unlinks: bounded retry for the lookup, never "until the guest is released"
+	releaseBound = 20 * time.Second
+)
 
 func newEnv(engine string, nops int, closeOnDone bool) (*env, error) {
 	ctx := context.Background()
-	e := &env{ctx: ctx, engine: engine, cod: closeOnDone, attempts: map[int]*attempt{}, slots: make([]atomic.Value, nops)}
+	e := &env{ctx: ctx, engine: engine, cod: closeOnDone, parked: map[int]*parkedCall{}, attempts: map[int]*attempt{}, slots: make([]atomic.Value, nops)}
 	e.rt = wazero.NewRuntimeWithConfig(ctx, wz.Config(engine).WithCloseOnContextDone(closeOnDone))
 	rt := e.rt
 	_, err := rt.NewHostModuleBuilder("env").
@@ -401,19 +469,15 @@ func newEnv(engine string, nops int, closeOnDone bool) (*env, error) {
 		panic(sys.NewExitError(code))
 	}).Export("kill_b").
 		NewFunctionBuilder().WithFunc(func(ctx context.Context, mod api.Module) {
-		// ends the context of the running call (if the caller provided the means) and stays
-		// inside the host function until the runtime has closed the module because of it
-		if c, ok := ctx.Value(cancelKey{}).(context.CancelFunc); ok {
-			c()
-		}
-		if ctx.Done() == nil {
-			return
-		}
-		for i := 0; i < 200000 && !mod.IsClosed(); i++ {
-			if i < 2000 {
-				runtime.Gosched()
-			} else {
-				time.Sleep(10 * time.Microsecond)
+		// parks the guest inside the host function until the harness releases it
+		if p, ok := ctx.Value(parkKey{}).(*park); ok {
+			select {
+			case p.entered <- struct{}{}:
+			default:
+			}
+			select {
+			case <-p.release:
+			case <-time.After(60 * time.Second): // safety net only
 			}
 		}
 	}).Export("block").
@@ -429,6 +493,16 @@ func newEnv(engine string, nops int, closeOnDone bool) (*env, error) {
 		e.compiled[i] = c
 	}
 	return e, nil
+}
+
+// releaseAllQuiet lets every guest that is still parked return (clean-up on any exit path).
+func (e *env) releaseAllQuiet() {
+	e.mu.Lock()
+	defer e.mu.Unlock()
+	for k, pc := range e.parked {
+		close(pc.p.release)
+		delete(e.parked, k)
+	}
 }
 
 func (e *env) slot(i int) api.Module {
@@ -642,36 +716,108 @@ func (e *env) exec(idx int, o Op, raw *api.Module) (r Res) {
 			r.Err = "ExportedFunction(wait) returned nil"
 			return
 		}
-		var cctx context.Context
-		var cancel context.CancelFunc
-		switch o.Var & 3 {
-		case ctxCancelInFlight:
-			cctx, cancel = context.WithCancel(ctx)
-			cctx = context.WithValue(cctx, cancelKey{}, cancel)
-		case ctxTimeoutInFlight:
-			cctx, cancel = context.WithTimeout(ctx, time.Millisecond)
-		case ctxCancelledBefore:
-			cctx, cancel = context.WithCancel(ctx)
-			cancel()
-		default:
-			cctx, cancel = context.WithDeadline(ctx, time.Now().Add(-time.Second))
-		}
-		_, out := safeCall(cctx, f)
-		cancel()
-		r.Kind, r.Exit = out.Kind, out.Exit
-		if out.Kind != wz.KExit {
-			r.Err = "call with a done context returned " + out.String()
-		}
-		// the close that the context triggers is performed by a goroutine of the runtime and
-		// may finish unlinking after Call has returned: wait for the registry to settle
-		if n := m.Name(); n != "" {
-			for i := 0; i < 100000 && e.rt.Module(n) == m; i++ {
-				if i < 1000 {
-					runtime.Gosched()
-				} else {
-					time.Sleep(10 * time.Microsecond)
-				}
+		// stillRegistered: after IsClosed() was observed true the registry must not return the
+		// instance any more (lookups return only open modules; the name can be taken again).
+		stillRegistered := func(retry time.Duration) bool {
+			n := m.Name()
+			if n == "" {
+				return false
 			}
+			deadline := time.Now().Add(retry)
+			for i := 0; e.rt.Module(n) == m; i++ {
+				if !time.Now().Before(deadline) {
+					return true
+				}
+				pollPause(i)
+			}
+			return false
+		}
+		v := o.Var & 3
+		if v == ctxCancelledBefore || v == ctxExpiredBefore {
+			cctx, cancel := context.WithCancel(ctx)
+			if v == ctxExpiredBefore {
+				cancel()
+				cctx, cancel = context.WithDeadline(ctx, time.Now().Add(-time.Second))
+			}
+			cancel()
+			_, out := safeCall(cctx, f)
+			r.Kind, r.Exit = out.Kind, out.Exit
+			if out.Kind != wz.KExit {
+				r.Err = "call with a done context returned " + out.String()
+			}
+			r.Closed = m.IsClosed()
+			r.Reg = r.Closed && stillRegistered(unlinkRetry) // (closed synchronously when this call closes it)
+			return
+		}
+		// in flight: the guest parks inside env.block, then its context ends
+		pk := &park{entered: make(chan struct{}, 1), release: make(chan struct{})}
+		cctx := newCtlCtx(context.WithValue(ctx, parkKey{}, pk))
+		pc := &parkedCall{p: pk, done: make(chan wz.Outcome, 1)}
+		go func() {
+			_, out := safeCall(cctx, f)
+			pc.done <- out
+		}()
+		finished := false
+		var out wz.Outcome
+		select {
+		case <-pk.entered:
+		case out = <-pc.done: // returned without reaching the host function (context already over)
+			finished = true
+		case <-time.After(closedWait):
+			r.Err = "the guest neither reached the host function nor returned"
+		}
+		if v == ctxCancelInFlight {
+			cctx.end(context.Canceled)
+		} else {
+			cctx.end(context.DeadlineExceeded)
+		}
+		if !finished && r.Err == "" {
+			// the guest is parked; wait (bounded) until the runtime has closed the module
+			deadline := time.Now().Add(closedWait)
+			for i := 0; !m.IsClosed() && time.Now().Before(deadline); i++ {
+				pollPause(i)
+			}
+		}
+		r.Closed = m.IsClosed()
+		r.Reg = r.Closed && stillRegistered(unlinkRetry) // observed while the guest is still parked
+		if finished {
+			r.Kind, r.Exit = out.Kind, out.Exit
+			return
+		}
+		if o.Hold && r.Err == "" {
+			e.mu.Lock()
+			e.parked[idx] = pc
+			e.mu.Unlock()
+			return
+		}
+		close(pk.release)
+		select {
+		case out = <-pc.done:
+			r.Kind, r.Exit = out.Kind, out.Exit
+			if out.Kind != wz.KExit && r.Err == "" {
+				r.Err = "call whose context ended returned " + out.String()
+			}
+		case <-time.After(releaseBound):
+			r.Err = "the released call did not return"
+		}
+	case kRelease:
+		e.mu.Lock()
+		pc := e.parked[o.H]
+		delete(e.parked, o.H)
+		e.mu.Unlock()
+		if pc == nil {
+			r.Skip = true
+			return
+		}
+		close(pc.p.release)
+		select {
+		case out := <-pc.done:
+			r.Kind, r.Exit = out.Kind, out.Exit
+			if out.Kind != wz.KExit {
+				r.Err = "call whose context ended returned " + out.String()
+			}
+		case <-time.After(releaseBound):
+			r.Err = "the released call did not return"
 		}
 	case kCompile:
 		c, err := e.rt.CompileModule(ctx, guestBinary(false, o.Var, 0, ""))
@@ -730,6 +876,7 @@ type mInst struct {
 	hasNote bool
 	open    bool
 	code    uint32
+	pending int // calls of this instance whose guest is still parked in a host function
 }
 
 type seqModel struct {
@@ -740,11 +887,12 @@ type seqModel struct {
 	failed   map[int]bool   // failed instantiation attempts
 	owner    map[string]int // non-empty name -> id of the open owner
 	slot     map[int]int    // op index -> instance id held by the slot (absent = empty)
+	parkedOp map[int]int    // callctx op index -> instance whose guest it left parked
 	tainted  map[string]bool
 }
 
 func newSeqModel() *seqModel {
-	return &seqModel{inst: map[int]*mInst{}, failed: map[int]bool{}, owner: map[string]int{}, slot: map[int]int{}, tainted: map[string]bool{}}
+	return &seqModel{inst: map[int]*mInst{}, failed: map[int]bool{}, owner: map[string]int{}, slot: map[int]int{}, parkedOp: map[int]int{}, tainted: map[string]bool{}}
 }
 
 func (m *seqModel) closeInst(id int, code uint32) {
@@ -811,6 +959,21 @@ func (m *seqModel) step(idx int, o Op) (want Res) {
 			return
 		}
 		m.closeInst(id, ctxCode(o.Var))
+		want.Closed = true // and, once IsClosed() was seen, not registered any more (Reg stays false)
+		if o.Hold && o.Var&3 < 2 {
+			m.inst[id].pending++
+			m.parkedOp[idx] = id
+			return
+		}
+		want.Kind, want.Exit = wz.KExit, m.inst[id].code
+	case kRelease:
+		id, ok := m.parkedOp[o.H]
+		if !ok {
+			want.Skip = true
+			return
+		}
+		delete(m.parkedOp, o.H)
+		m.inst[id].pending--
 		want.Kind, want.Exit = wz.KExit, m.inst[id].code
 	case kLookup:
 		if id, ok := m.owner[o.Name]; ok && o.Name != "" && !m.rtClosed {
@@ -896,10 +1059,14 @@ func (m *seqModel) counters(e *env) string {
 		if !in.open && in.hasNote {
 			wantNotes = 1
 		}
-		if n := a.notes.Load(); n != wantNotes {
+		// A module closed through a done context while its guest sits in a host function
+		// releases its resources (and notifies) when a call next notices: until the parked
+		// guest has returned, "not yet" is as good as "once".
+		deferred := !in.open && in.pending > 0
+		if n := a.notes.Load(); n != wantNotes && !(deferred && n == 0) {
 			return fmt.Sprintf("instance #%d (name %q, open=%v): close notifier fired %d times, want %d", id, in.name, in.open, n, wantNotes)
 		}
-		if wantNotes == 1 && a.code.Load() != in.code {
+		if wantNotes == 1 && a.notes.Load() == 1 && a.code.Load() != in.code {
 			return fmt.Sprintf("instance #%d (name %q): close notifier received exit code %d, the close that took effect had %d", id, in.name, a.code.Load(), in.code)
 		}
 		wantAlloc, wantFree := int32(1), int32(0)
@@ -909,7 +1076,7 @@ func (m *seqModel) counters(e *env) string {
 		if !in.open {
 			wantFree = wantAlloc
 		}
-		if al, fr := a.allocs.Load(), a.frees.Load(); al != wantAlloc || fr != wantFree {
+		if al, fr := a.allocs.Load(), a.frees.Load(); al != wantAlloc || (fr != wantFree && !(deferred && fr == 0)) {
 			return fmt.Sprintf("instance #%d (name %q, open=%v): memory allocated %d times (want %d), freed %d times (want %d)", id, in.name, in.open, al, wantAlloc, fr, wantFree)
 		}
 	}
@@ -1008,6 +1175,28 @@ func (s *seqRun) finish() string {
 	}
 	msg := probe()
 	if msg == "" {
+		// let every guest that is still parked return: its call reports the exit code, and the
+		// deferred release (notification, memory) has happened exactly once afterwards
+		var pend []int
+		for k := range s.m.parkedOp {
+			pend = append(pend, k)
+		}
+		sort.Ints(pend)
+		for _, k := range pend {
+			o := Op{K: kRelease, H: k}
+			want := s.m.step(-1, o)
+			got := s.e.exec(-1, o, nil)
+			s.trace = append(s.trace, fmt.Sprintf("  final %s -> %s", o, got))
+			if !sameRes(got, want) {
+				msg = fmt.Sprintf("at quiescence: %s returned %s, the model demands %s", o, got, want)
+				break
+			}
+		}
+		if msg == "" {
+			msg = s.m.counters(s.e)
+		}
+	}
+	if msg == "" {
 		var p any
 		func() {
 			defer func() { p = recover() }()
@@ -1038,6 +1227,7 @@ func runSeqCase(c SeqCase) string {
 		return err.Error()
 	}
 	defer s.e.rt.Close(s.e.ctx)
+	defer s.e.releaseAllQuiet()
 	for _, o := range c.Ops {
 		if len(s.c.Ops) >= maxSeqOps+8 {
 			break
@@ -1112,6 +1302,9 @@ func genSeqOp(t *rapid.T, s *seqRun) Op {
 	if m.cod {
 		kinds = append(kinds, kCallCtx, kCallCtx, kCallCtx)
 	}
+	if len(m.parkedOp) > 0 {
+		kinds = append(kinds, kRelease, kRelease)
+	}
 	for try := 0; ; try++ {
 		k := rapid.SampledFrom(kinds).Draw(t, "kind")
 		switch k {
@@ -1165,8 +1358,16 @@ func genSeqOp(t *rapid.T, s *seqRun) Op {
 			}
 			if k == kCallCtx {
 				o.Var = rapid.IntRange(0, 3).Draw(t, "context-end")
+				o.Hold = o.Var < 2 && rapid.IntRange(0, 2).Draw(t, "stay-parked") > 0
 			}
 			return o
+		case kRelease:
+			var pend []int
+			for k := range m.parkedOp {
+				pend = append(pend, k)
+			}
+			sort.Ints(pend)
+			return Op{K: kRelease, H: rapid.SampledFrom(pend).Draw(t, "parked-call")}
 		case kCompile:
 			return Op{K: k, Var: rapid.IntRange(1, 12).Draw(t, "variant")}
 		case kRtClose, kRtCloseC:
@@ -1200,9 +1401,27 @@ func seqStats(s *seqRun) (nontrivial bool, labels []string) {
 	var reinst, dupFail, afterClose, postCloseReq, hostPost, ctxClose, ctxObserved bool
 	startKinds := map[string]bool{}
 	ctxClosed := map[int]bool{}
+	var parkedNamed, nameWhileParked bool
+	parkedName := func(n string) bool { // is a closed instance of that name still parked?
+		for _, id := range m.parkedOp {
+			if in := m.inst[id]; n != "" && in.name == n && !in.open {
+				return true
+			}
+		}
+		return false
+	}
 	for i, o := range s.c.Ops {
 		switch o.K {
+		case kLookup:
+			nameWhileParked = nameWhileParked || parkedName(o.Name)
+		case kInst, kHostInst:
+			nameWhileParked = nameWhileParked || parkedName(o.effName())
+		}
+		switch o.K {
 		case kCallCtx:
+			if id, ok := m.slot[o.H]; ok && !m.inst[id].host && m.cod && o.Hold && o.Var&3 < 2 && m.inst[id].open && m.inst[id].name != "" {
+				parkedNamed = true
+			}
 			if id, ok := m.slot[o.H]; ok && !m.inst[id].host && m.cod {
 				if m.inst[id].open {
 					ctxClose = true
@@ -1265,6 +1484,12 @@ func seqStats(s *seqRun) (nontrivial bool, labels []string) {
 	if ctxClose {
 		labels = append(labels, "seq-closed-by-context-done")
 	}
+	if parkedNamed {
+		labels = append(labels, "seq-named-guest-parked-in-host-when-closed-by-context")
+	}
+	if nameWhileParked {
+		labels = append(labels, "seq-name-looked-up-or-instantiated-while-old-guest-parked")
+	}
 	if ctxObserved {
 		labels = append(labels, "seq-context-closed-instance-used-again")
 	}
@@ -1297,6 +1522,7 @@ func runSeq(t *rapid.T) {
 		t.Fatalf("%v", err)
 	}
 	defer s.e.rt.Close(s.e.ctx)
+	defer s.e.releaseAllQuiet()
 	n := rapid.IntRange(2, maxSeqOps).Draw(t, "nops")
 	for i := 0; i < n; i++ {
 		o := genSeqOp(t, s)
